@@ -632,7 +632,7 @@ theorem arr_set_ok (m : Module) (fr : Frame) (c : Core) (frames : List Frame) (i
       · rename_i hin
         have hi := idxInRange_lt hin
         obtain ⟨hobj, hfin⟩ := (h3.perm (ex' := [c.pop.2] ++ [c.pop.1.pop.1.pop.2, c.pop.1.pop.2]) (by levals)).replaceKid a (Obj.arr et)
-          (fun _ => rfl) (fun _ _ => rfl) es _ hi [c.pop.2] (es.set (asI64 c.pop.1.pop.2).toNat c.pop.2) ho
+          (fun _ => rfl) (fun _ _ => rfl) es _ hi [c.pop.2] (es.set (asIdx c.pop.1.pop.2).toNat c.pop.2) ho
           ⟨c.pop.1.pop.1.pop.2, by simp, by rw [hv]; rfl⟩ (set_set_void_le es _ _ hi)
         simp only [hobj]
         exact hfin.push.drop
@@ -654,7 +654,7 @@ theorem arr_remove_ok (m : Module) (fr : Frame) (c : Core) (frames : List Frame)
       · rename_i hin
         have hi := idxInRange_lt hin
         obtain ⟨hobj, hfin⟩ := (h2.perm (ex' := [] ++ [c.pop.1.pop.2, c.pop.2]) (by levals)).replaceKid a (Obj.arr et)
-          (fun _ => rfl) (fun _ _ => rfl) es _ hi [] (es.eraseIdx (asI64 c.pop.2).toNat) ho
+          (fun _ => rfl) (fun _ _ => rfl) es _ hi [] (es.eraseIdx (asIdx c.pop.2).toNat) ho
           ⟨c.pop.1.pop.2, by simp, by rw [hv]; rfl⟩ (by
             intro w hw
             have e1 := count_eraseIdx_val es _ .void hi w
